@@ -37,6 +37,9 @@ REFUSE_KINDS = ['for', 'while', 'call', 'chained-compare', 'tuple-target', 'floa
                 'assign-to-wire-attr', 'match-value-attr', 'compare-tuple', 'boolop-in-call-kw']
 
 
+CHAIN_OPS = ['+', '-', '+', '-', '*', '|', '&', '^', '>>', '%', '//']
+
+
 class G:
     def __init__(self, rng, profile, seq):
         self.r, self.profile, self.seq = rng, profile, seq
@@ -49,6 +52,8 @@ class G:
     def int_leaf(self):
         """a 32-bit signed Verilog operand: constant, state attribute, local, constructor constant"""
         k = self.r.randint(0, 9)
+        if getattr(self, 'force_consts', False) and self.consts and self.r.chance(1, 2):
+            return f'self.{self.r.choice(self.consts)[0]}'
         if k < 3 or not (self.state or self.locals or self.consts):
             return str(self.r.choice([0, 1, 1, 2, 3, 4, 5, 7, 8, 15, 16, 31, 100, 255, 256, 1000, 65535, 0x7FFFFFFF]
                                      if self.r.chance(1, 6) else [0, 1, 2, 3, 4, 5, 7, 8, 15]))
@@ -118,6 +123,14 @@ class G:
                              f'(not {self.cond(d - 1)})'])
         if k < 92:
             self.tags.add('ternary')
+            if r.chance(1, 2):
+                # flag idioms: constant arms under a condition that may be a MULTI-BIT value (bit test, arithmetic): any
+                # peephole rewriting of `1 if c else 0` into `c` must keep the 0/1 value
+                self.tags.add('ternary-idiom')
+                a, b = r.choice([('1', '0'), ('0', '1'), ('True', 'False'), ('False', 'True'), ('1', '1'), ('2', '0'), ('0', '2')])
+                cnd = r.choice([self.wide(d - 1), f'({self.value(d - 1)} & {r.choice([2, 4, 6, 12])})', self.cond(d - 1),
+                                f'({self.int_leaf()} + {self.value(d - 1)})'])
+                return f'({a} if {cnd} else {b})'
             return f'({self.value(d - 1)} if {self.cond(d - 1)} else {self.value(d - 1)})'
         if self.wild:
             if k < 95:
@@ -126,7 +139,19 @@ class G:
             if k < 97:
                 self.tags.add('neg-value')
                 return f'(-{self.value(d - 1)})'
+        if r.chance(1, 3):
+            # a left-associated chain whose two right operands are CONSTANTS (literal, ord('c') in clock methods): what a
+            # constant-collapsing pass rewrites
+            self.tags.add('const-chain')
+            o1, o2 = r.choice(CHAIN_OPS), r.choice(CHAIN_OPS)
+            return f'(({self.value(d - 1)} {o1} {self.const_txt()}) {o2} {self.const_txt()})'
         return f'({self.value(d - 1)} + {self.int_leaf()})'
+
+    def const_txt(self):
+        v = self.r.choice([1, 2, 3, 5, 7, 10, 48, 65, 97])
+        if self.seq and 32 < v < 127 and self.r.chance(1, 2):
+            return f"ord('{chr(v)}')"
+        return str(v)
 
     def wide(self, d):
         """value expression whose Verilog self-determined width is >= 32 (contains an integer operand at context level)"""
@@ -414,23 +439,65 @@ def ast_kind_audit():
     return unclassified, gone, missing
 
 
-def gen_class(rng, idx, profile, refuse_kind=None):
+def apply_naming(rng, g, scheme):
+    """attribute names of the ports: any injective renaming is legal Python (self.<attr> = self.addIn('<port>', w)); the emitted
+    text must name every wire by its PORT name.  Schemes: fresh (one attribute renamed), swap (two ports exchange names), chain
+    (one attribute is ANOTHER port's name, whose own attribute is fresh), rotate (all ports shifted by one)."""
+    ports = [n for n, _ in g.ins + g.outs]
+    if scheme == 'fresh' or len(ports) < 2:
+        n = rng.choice(ports)
+        g.attr_of[n] = n + '_w'
+    elif scheme == 'swap':
+        p, q = rng.shuffle(ports)[:2]
+        g.attr_of[p], g.attr_of[q] = q, p
+    elif scheme == 'chain':
+        p, q = rng.shuffle(ports)[:2]
+        g.attr_of[p], g.attr_of[q] = q, q + '_w'
+    else:
+        for i, n in enumerate(ports):
+            g.attr_of[n] = ports[(i + 1) % len(ports)]
+    g.tags.add('attr-ne-port')
+    g.tags.add('naming:' + scheme)
+
+
+NAMING_SCHEMES = ['fresh', 'swap', 'chain', 'rotate']
+CONST_VALUES = [0, 1, 2, 3, 7, 10, 255, 1000]
+
+
+def alt_widths(rng, wires):
+    """other port widths for a further instance of the same class, inside the same width class (<= 3 bits: shift amounts,
+    4..31: narrow, >= 32: wide), so that the generated body keeps its classification"""
+    def alt(w):
+        if w <= 3:
+            return rng.choice([1, 2, 3])
+        if w < 32:
+            return rng.choice([4, 8, 12, 16, 24, 31])
+        return w
+    return [(n, alt(w), d) for n, w, d in wires]
+
+
+def alt_consts(rng, consts):
+    """other constructor arguments for a further instance of the same class: every value differs from the first instance's"""
+    return [(n, rng.choice([x for x in CONST_VALUES + [4, 5, 6, 12, 100] if x != v])) for n, v in consts]
+
+
+def gen_class(rng, idx, profile, refuse_kind=None, force_consts=False, naming=None):
     seq = rng.chance(3, 4)
     g = G(rng, profile, seq)
     wl = WIDTHS_WILD if profile == 'wild' else WIDTHS_SAFE
     g.ins = [(f'i{k}', rng.choice(wl if not refuse_kind else [4, 8, 8])) for k in range(rng.randint(1, 4))]
     g.outs = [(f'o{k}', rng.choice(wl + [32])) for k in range(rng.randint(1, 3))]
     g.attr_of = {n: n for n, _ in g.ins + g.outs}
-    if profile == 'wild' and rng.chance(1, 10):
-        n = rng.choice(g.ins + g.outs)[0]
-        g.attr_of[n] = n + '_w'
-        g.tags.add('attr-ne-port')
+    if naming is not None or (not refuse_kind and rng.chance(1, 5)):
+        # ports referred to by their port name since /repo 53243dd: every naming scheme is inside the proved fragment
+        apply_naming(rng, g, naming or rng.choice(NAMING_SCHEMES))
     if seq:
         g.state = [(f's{k}', rng.choice([0, 0, 1, 2, 5, 100])) for k in range(rng.randint(0, 3))]
     elif rng.chance(1, 2):
         # a propagate() may READ integer attributes set in the constructor (never assigns them): they need the `initial` block too
         g.state = [(f's{k}', rng.choice([1, 2, 5, 100, 255])) for k in range(rng.randint(1, 2))]
-    g.consts = [(f'k{k}', rng.choice([0, 1, 2, 3, 7, 10, 255, 1000])) for k in range(rng.randint(0, 2))]
+    g.consts = [(f'k{k}', rng.choice(CONST_VALUES)) for k in range(rng.randint(2, 3) if force_consts else rng.randint(0, 2))]
+    g.force_consts = force_consts
     g.top_depth = rng.randint(1, 3)
     d = rng.randint(1, 3)
     if refuse_kind:
@@ -575,6 +642,180 @@ def gen_nest_classes(rng, n_diff=3, n_rand=2):
                             outs=[(f'o{j}', 32) for j in range(nout)], consts=[], state=[], seq=True,
                             tags=['nest', 'nest-unsafe-rhs'] if unsafe else ['nest'], attr_of={}, profile='nest',
                             history=rng.fork(('nh', name)).shuffle(hist), exprs=exprs))
+    return out
+
+
+# ------------------------------------------------------------------------------------------------ constant-operand nesting stream
+CONST_POOL = [0, 1, 2, 3, 5, 7, 8, 10, 12, 48, 65, 97, 100, 255]
+CONST_PATTERNS_2 = ['vkk', 'kvk', 'kkv', 'kkk']      # at least two constant operands: what constant folding / collapsing rewrites
+CONST_PATTERNS_1 = ['kvv', 'vkv', 'vvk']
+
+
+def _const_form(rng, v, consts, seq=True):
+    """a constant operand as source text: literal, ord('c') (evaluated by PropagateConstants), constructor constant self.k
+    (substituted by ReplaceWiresAndVariables)"""
+    f = rng.randint(0, 3)
+    if f == 0 and seq and 32 < v < 127 and chr(v) not in "'\\":
+        return f"ord('{chr(v)}')"
+    if f == 1:
+        for n, x in consts:
+            if x == v:
+                return f'self.{n}'
+        if len(consts) < 12:
+            consts.append((f'k{len(consts)}', v))
+            return f'self.k{len(consts) - 1}'
+    return str(v)
+
+
+def constnest_vectors(rng, outer, inner, side, pattern, n_diff=1, n_rand=1, tries=10):
+    """constants for the 'k' positions of (x, y, z) and values of the remaining variables, inside the domain; preferred: constants
+    for which some variable values make the two groupings of the expression DIFFER.  -> (consts {pos: v}, vectors, n_diff_found)"""
+    kpos = [i for i, ch in enumerate(pattern) if ch == 'k']
+    vpos = [i for i, ch in enumerate(pattern) if ch == 'v']
+    best = None
+    for _ in range(tries):
+        cs = {i: rng.choice(CONST_POOL) for i in kpos}
+        diff, same = [], []
+        combos = [[]]
+        for _i in vpos:
+            combos = [c + [v] for c in combos for v in NEST_POOL]
+        for combo in combos:
+            t = [0, 0, 0]
+            for i in kpos:
+                t[i] = cs[i]
+            for i, v in zip(vpos, combo):
+                t[i] = v
+            x, y, z = t
+            if side == 'R':
+                want, alt = _ap(outer, x, _ap(inner, y, z)), _ap(inner, _ap(outer, x, y), z)
+            else:
+                want, alt = _ap(outer, _ap(inner, x, y), z), _ap(inner, x, _ap(outer, y, z))
+            if want is None:
+                continue
+            (diff if alt != want else same).append((x, y, z))
+        if best is None or len(diff) > len(best[1]) or (not best[1] and len(same) > len(best[2])):
+            best = (cs, diff, same)
+        if diff:
+            break
+    cs, diff, same = best
+    diff, same = rng.shuffle(diff), rng.shuffle(same)
+    return cs, diff[:n_diff] + same[:(n_rand if diff else max(1, n_rand))], len(diff)
+
+
+def gen_constnest_classes(rng, patterns=CONST_PATTERNS_2, n_diff=1, n_rand=1):
+    """the nesting stream with CONSTANT operands: for every ordered pair (outer, inner) of binary/comparison operators, nested left
+    and right, and every pattern of which of the three operands are constants (each constant written as a literal, ord('c') or a
+    constructor constant): the emitted expression must keep the Python value for variable values on which the two groupings differ.
+    One class per (outer operator, pattern)."""
+    out = []
+    idx = 0
+    for outer in NEST_BIN + NEST_CMP:
+        for pattern in patterns:
+            exprs, consts = [], []
+            for inner in NEST_BIN + NEST_CMP:
+                for side in ('L', 'R'):
+                    if side == 'R' and not _rhs_safe(outer, inner):
+                        continue
+                    r = rng.fork(('cnv', outer, inner, side, pattern))
+                    cs, vecs, nd = constnest_vectors(r, outer, inner, side, pattern, n_diff, n_rand)
+                    if not vecs:
+                        continue
+                    names = ['x', 'y', 'z']
+                    ops = [(_const_form(r, cs[i], consts) if i in cs else names[i]) for i in range(3)]
+                    txt = f'({ops[0]} {PY_BIN[outer]} ({ops[1]} {PY_BIN[inner]} {ops[2]}))' if side == 'R' else \
+                          f'(({ops[0]} {PY_BIN[inner]} {ops[1]}) {PY_BIN[outer]} {ops[2]})'
+                    exprs.append(dict(txt=txt, vecs=vecs, outer=outer, inner=inner, side=side, pattern=pattern, n_diff=nd))
+            if not exprs:
+                continue
+            name = f'K{idx}'
+            idx += 1
+            nout = len(exprs)
+            args = ['a', 'b', 'c', 's'] + [f'o{j}' for j in range(nout)] + [n for n, _ in consts]
+            L = [f'class {name}(py4hw.Logic):', f'    def __init__(self, parent, name, {", ".join(args)}):',
+                 '        super().__init__(parent, name)']
+            for n in ('a', 'b', 'c', 's'):
+                L.append(f"        self.{n} = self.addIn('{n}', {n})")
+            for j in range(nout):
+                L.append(f"        self.o{j} = self.addOut('o{j}', o{j})")
+            for n, _ in consts:
+                L.append(f'        self.{n} = {n}')
+            L += ['    def clock(self):', '        x = self.a.get()', '        y = self.b.get()', '        z = self.c.get()']
+            hist = []
+            for j, e in enumerate(exprs):
+                L += [f'        if self.s.get() == {j}:', f'            self.o{j}.prepare({e["txt"]})']
+                for (x, y, z) in e['vecs']:
+                    hist.append({'a': x, 'b': y, 'c': z, 's': j})
+            out.append(dict(name=name, src='\n'.join(L) + '\n', ins=[('a', 8), ('b', 8), ('c', 8), ('s', 6)],
+                            outs=[(f'o{j}', 32) for j in range(nout)], consts=consts, state=[], seq=True,
+                            tags=['constnest', 'constnest:' + pattern], attr_of={}, profile='nest',
+                            history=rng.fork(('cnh', name)).shuffle(hist), exprs=exprs))
+    return out
+
+
+# ------------------------------------------------------------------------------------------------ idiom stream (ternaries / flags)
+IDIOM_ARMS = [('1', '0'), ('0', '1'), ('True', 'False'), ('False', 'True'), ('1', '1'), ('0', '0'), ('2', '0'), ('0', '2'),
+              ('x', '0'), ('0', 'x'), ('x', 'x'), ('y', 'x'), ('1', 'x'), ('x', '1')]
+IDIOM_VALS = [0, 1, 2, 3, 4, 6, 8, 12, 255]
+
+
+def gen_idiom_classes(rng):
+    """conditional idioms whose condition is a VALUE, not a flag: for every operator `x op y` (and the bare variable, `not x`) as the
+    condition, and every pair of arms drawn from 0/1/True/False/2/x/y: the ternary `A if cond else B` in value position, inside an
+    arithmetic context, and the statement form `if cond: o.prepare(A) else: o.prepare(B)`.  The history drives (x, y) on which the
+    condition value is 0, 1 and a multi-bit truthy value."""
+    out = []
+    conds = [(op, f'(x {PY_BIN[op]} y)') for op in NEST_BIN + NEST_CMP] + [('var', 'x'), ('not', '(not x)'),
+                                                                           ('and', '(x and y)'), ('or', '(x or y)')]
+    for ci, (op, ctxt) in enumerate(conds):
+        # (x, y) with condition value 0 / 1 / > 1, inside the domain
+        def cv(x, y):
+            try:
+                v = eval(ctxt, {}, {'x': x, 'y': y})
+            except Exception:
+                return None
+            v = int(v)
+            if op in ('shl',) and y > 20:
+                return None
+            return v if 0 <= v < (1 << 31) else None
+        groups = {0: [], 1: [], 2: []}
+        for x in IDIOM_VALS:
+            for y in IDIOM_VALS:
+                v = cv(x, y)
+                if v is not None:
+                    groups[min(v, 2)].append((x, y))
+        vecs = []
+        r = rng.fork(('idiom', op))
+        for gk in (2, 1, 0):
+            vecs += r.shuffle(groups[gk])[:2 if gk == 2 else 1]
+        exprs = []
+        for (a, b) in IDIOM_ARMS:
+            exprs.append(('tern', f'({a} if {ctxt} else {b})'))
+        for (a, b) in IDIOM_ARMS[:4]:
+            exprs.append(('tern-arith', f'(y + ({a} if {ctxt} else {b}))'))
+            exprs.append(('if-stmt', (ctxt, a, b)))
+        name = f'I{ci}'
+        nout = len(exprs)
+        args = ['a', 'b', 's'] + [f'o{j}' for j in range(nout)]
+        L = [f'class {name}(py4hw.Logic):', f'    def __init__(self, parent, name, {", ".join(args)}):',
+             '        super().__init__(parent, name)']
+        for n in ('a', 'b', 's'):
+            L.append(f"        self.{n} = self.addIn('{n}', {n})")
+        for j in range(nout):
+            L.append(f"        self.o{j} = self.addOut('o{j}', o{j})")
+        L += ['    def clock(self):', '        x = self.a.get()', '        y = self.b.get()']
+        hist = []
+        for j, (kind, e) in enumerate(exprs):
+            if kind == 'if-stmt':
+                L += [f'        if self.s.get() == {j}:', f'            if {e[0]}:', f'                self.o{j}.prepare({e[1]})',
+                      '            else:', f'                self.o{j}.prepare({e[2]})']
+            else:
+                L += [f'        if self.s.get() == {j}:', f'            self.o{j}.prepare({e})']
+            for (x, y) in vecs:
+                hist.append({'a': x, 'b': y, 's': j})
+        out.append(dict(name=name, src='\n'.join(L) + '\n', ins=[('a', 8), ('b', 8), ('s', 6)],
+                        outs=[(f'o{j}', 32) for j in range(nout)], consts=[], state=[], seq=True,
+                        tags=['idiom', 'idiom:' + op], attr_of={}, profile='nest',
+                        history=rng.fork(('idh', name)).shuffle(hist), exprs=exprs, n_multibit=len(groups[2])))
     return out
 
 
